@@ -101,6 +101,8 @@ pub mod tempfile {
             ensures
                 final(self)@ == old(self)@,
                 final(w).healthy == old(w).healthy, hist_ext(*old(w), *final(w)), world_wf(*old(w)) ==> world_wf(*final(w)),
+                // ASSUMED: a file never grows beyond usize::MAX bytes
+                r is Ok ==> final(w).fs.files[old(self)@].len() <= usize::MAX,
                 r is Ok ==> r->Ok_0 <= buf@.len() && tmp_pos(*final(self)) == tmp_pos(*old(self)) + r->Ok_0
                     && final(w).fs.files.contains_key(old(self)@) && same_except(old(w).fs, final(w).fs, old(self)@) && final(w).fs.dirs == old(w).fs.dirs,
                 r is Ok && tmp_pos(*old(self)) == old(w).fs.files[old(self)@].len() ==>
